@@ -207,7 +207,7 @@ func runC10(c *Ctx, i int, r *rand.Rand) {
 	if size < 0 {
 		size = 0
 	}
-	if max := tierN(c.Tier, 3<<20, 128<<20); size > max {
+	if max := tierN(c.Tier, 3<<20, 32<<20); size > max {
 		size = max
 	}
 	creq := &ClientReq{Form: form, M: m, Codec: pick(r, []string{"proto", "json"}), HTTP2: true, DeclLen: chance(r, 50), GetViaQuery: true, Accept: []string{"gzip"}}
@@ -229,7 +229,7 @@ func runC10(c *Ctx, i int, r *rand.Rand) {
 		creq.Comp = "gzip"
 		script.Comp = "gzip"
 		size = int(L) * pick(r, []int{1, 10, 100, 1000}) / 2
-		if max := tierN(c.Tier, 8<<20, 256<<20); size > max {
+		if max := tierN(c.Tier, 8<<20, 64<<20); size > max {
 			size = max
 		}
 	}
@@ -238,7 +238,7 @@ func runC10(c *Ctx, i int, r *rand.Rand) {
 		switch family {
 		case "json-expansion":
 			n := pick(r, []int{int(L) / 40, int(L) / 4, int(L)})
-			if max := tierN(c.Tier, 200_000, 2_000_000); n > max {
+			if max := tierN(c.Tier, 200_000, 600_000); n > max {
 				n = max // hundreds of megabytes of JSON add nothing but run time
 			}
 			return expandingMessage(md, n)
@@ -274,7 +274,7 @@ func runC10(c *Ctx, i int, r *rand.Rand) {
 			// a compressed end-of-stream frame / error body: tiny on the wire, large once inflated
 			script.Comp, script.CompressEnd = "gzip", true
 			esz = pick(r, []int{int(L) / 2, int(L) - 200, 2 * int(L), 10 * int(L), 100 * int(L), 1000 * int(L)})
-			if max := tierN(c.Tier, 8<<20, 128<<20); esz > max {
+			if max := tierN(c.Tier, 8<<20, 32<<20); esz > max {
 				esz = max
 			}
 			if esz < 0 {
@@ -425,6 +425,27 @@ func runC10(c *Ctx, i int, r *rand.Rand) {
 			}
 		}
 		return
+	}
+	// (b') a message that had to be re-encoded was held in full in its new form: if that form exceeds the memory bound
+	// (a small multiple of L), delivering it means that much was buffered, whatever the wire form looked like
+	if o.OK() && family != "big-error" {
+		bo := e0.Backend.Obs
+		if dirReq && bo.Invocations > 0 && bo.Codec != creq.Codec && !e0.Backend.Obs.Direct {
+			for k, raw := range bo.RawMsgs {
+				if len(raw) > 4*int(limit)+64<<10 && k < len(e.Backend.Obs.Msgs) && e.Backend.Obs.Msgs[k] != nil {
+					c.Violate(i, "oversized-reencoded-message-delivered/request/"+feat, fmt.Sprintf("request message %d is %d bytes in the backend's codec (limit %d) and was delivered\n%s", k, len(raw), limit, detail()))
+					return
+				}
+			}
+		}
+		if !dirReq && bo.Invocations > 0 && bo.Codec != creq.Codec && !bo.Direct {
+			for k, raw := range e0.Out.RawMsgs {
+				if len(raw) > 4*int(limit)+64<<10 && k < len(o.Msgs) && o.Msgs[k] != nil {
+					c.Violate(i, "oversized-reencoded-message-delivered/response/"+feat, fmt.Sprintf("response message %d is %d bytes in the client's codec (limit %d) and was delivered\n%s", k, len(raw), limit, detail()))
+					return
+				}
+			}
+		}
 	}
 	// (b) something does not fit: success is fine if nothing had to be buffered; failure must say resource_exhausted
 	if o.OK() || (script.Err != nil && o.Kind == "error" && o.Code == script.Err.Code && o.Msg == script.Err.Msg) {
